@@ -4,6 +4,7 @@
      weed/s3api/auth_signature_v{2,4}.go  only the ORDER of the checks; the HMAC comparison is an oracle
      weed/s3api/s3api_server.go        registerRouter: route table (method, path, headers, queries) -> ACTION_*
      weed/iamapi/iamapi_management_handlers.go  GetActions / MapToStatementAction / PutUserPolicy
+     weed/s3api/s3api_object_copy_handlers.go   which bucket CopyObject / CopyObjectPart download the source from
    Executable definitions only; proofs are in proof/S3AuthProofs.v. *)
 From Coq Require Import List NArith Bool String Ascii.
 Import ListNotations.
@@ -549,7 +550,7 @@ Fixpoint digits_value (acc : N) (s : string) : N :=
   | String c s' => digits_value (acc * 10 + (N_of_ascii c - 48))%N s'
   end.
 
-Definition globalMaxPartID : N := 10000%N.   (* 100000 before the repair of C28 finding 5 *)
+Definition globalMaxPartID : N := 10000%N.   (* S3 part numbers are 1..10000 (100000 and no lower bound before the repair of C28 finding 5) *)
 
 (* what the body of a POST carries (the harness builds it; an input of the case) *)
 Inductive form_state :=
@@ -644,9 +645,13 @@ Definition put_object_gate (ids : list identity) (r : request) (c : claim) (w : 
   | _ => GPass w
   end.
 
+(* strconv.Atoi(r.URL.Query().Get("partNumber")) *)
+Definition part_number (r : request) : N :=
+  digits_value 0 (match query_get "partNumber" (rq_query r) with Some v => v | None => "" end).
+
 Definition put_object_part_gate (ids : list identity) (r : request) (c : claim) (e : env) (w : option identity) : gate :=
   if negb (e_upload_exists e) then GReject HNoSuchUpload          (* s3a.exists: a filer LOOKUP, before any verification *)
-  else if (globalMaxPartID <? digits_value 0 (match query_get "partNumber" (rq_query r) with Some v => v | None => "" end))%N
+  else if ((part_number r <? 1) || (globalMaxPartID <? part_number r))%N     (* partID < 1 || partID > globalMaxPartID *)
        then GReject HInvalidMaxParts
   else match get_request_auth_type r with
        | StreamingSigned => match ids with [] => GPass w | _ => seed_verify ids r c end
@@ -709,8 +714,9 @@ Definition policy_spec (ids : list identity) (r : request) (f : form_state) : bo
   | None => false
   end.
 
-(* the property's right-hand side for route i, all signature kinds of the property text *)
-Definition effect_authorized_spec (ids : list identity) (r : request) (c : claim) (e : env) (i : N) : bool :=
+(* the property's right-hand side for route i, all signature kinds of the property text:
+   the route's own action on the bucket of the URL *)
+Definition effect_authorized_spec0 (ids : list identity) (r : request) (c : claim) (e : env) (i : N) : bool :=
   let t := get_request_auth_type r in
   match nth_error route_table (N.to_nat i) with
   | Some rt =>
@@ -721,11 +727,100 @@ Definition effect_authorized_spec (ids : list identity) (r : request) (c : claim
   | None => authenticated_spec ids t c
   end.
 
+(* ---------- copy routes: the read of the SOURCE bucket ----------
+   CopyObjectHandler / CopyObjectPartHandler (s3api_object_copy_handlers.go) download
+   X-Amz-Copy-Source from the filer and upload it to the destination.  Auth wrapped them with
+   ACTION_WRITE on the bucket of the URL (the destination) only. *)
+Definition hex_val (c : ascii) : option N :=
+  let n := N_of_ascii c in
+  if (48 <=? n)%N && (n <=? 57)%N then Some (n - 48)%N
+  else if (97 <=? n)%N && (n <=? 102)%N then Some (n - 87)%N
+  else if (65 <=? n)%N && (n <=? 70)%N then Some (n - 55)%N
+  else None.
+
+(* url.QueryUnescape: "%XX" -> the byte, "+" -> " "; None = EscapeError *)
+Fixpoint query_unescape (s : string) : option string :=
+  match s with
+  | EmptyString => Some EmptyString
+  | String c s' =>
+      if Ascii.eqb c "%" then
+        match s' with
+        | String a (String b s'') =>
+            match hex_val a, hex_val b with
+            | Some x, Some y => option_map (String (ascii_of_N (16 * x + y))) (query_unescape s'')
+            | _, _ => None
+            end
+        | _ => None
+        end
+      else option_map (String (if Ascii.eqb c "+" then " "%char else c)) (query_unescape s')
+  end.
+
+(* cpSrcPath: the unescaped header, or the header as it is when it does not unescape *)
+Definition copy_source_path (r : request) : string :=
+  match query_unescape (rq_copysrc r) with Some p => p | None => rq_copysrc r end.
+
+(* strings.TrimPrefix(path, "/") *)
+Definition trim_slash (s : string) : string :=
+  match s with
+  | String c s' => if Ascii.eqb c "/" then s' else s
+  | EmptyString => s
+  end.
+
+(* strings.SplitN(path, "/", 2): the part before the first "/", and the rest if there is a "/" *)
+Fixpoint split_first_slash (s : string) : string * option string :=
+  match s with
+  | EmptyString => (EmptyString, None)
+  | String c s' =>
+      if Ascii.eqb c "/" then (EmptyString, Some s')
+      else let (b, o) := split_first_slash s' in (String c b, o)
+  end.
+
+(* pathToBucketAndObject *)
+Definition path_to_bucket_and_object (p : string) : string * string :=
+  match split_first_slash (trim_slash p) with
+  | (b, Some o) => (b, "/" ++ o)
+  | (b, None) => (b, "/")
+  end.
+
+Definition COPY_OBJECT_PART_IDX : N := 2%N.
+Definition COPY_OBJECT_IDX : N := 12%N.
+
+(* Some sb: the handler behind route i asks the filer for an object of bucket sb (util.DownloadFile /
+   util.ReadUrlAsReaderCloser on BucketsPath/sb/...); None: it answers before that, or i is not
+   a copy route.  X-Amz-Metadata-Directive is not part of the request projection: the harness
+   never sends it, so isReplace(r) = false and CopyObjectHandler's touch-only branch is skipped. *)
+Definition copy_reads_source (r : request) (e : env) (i : N) : option string :=
+  let (sb, so) := path_to_bucket_and_object (copy_source_path r) in
+  if (i =? COPY_OBJECT_IDX)%N then
+    if String.eqb so "" || String.eqb sb "" then None                                   (* ErrInvalidCopySource *)
+    else if String.eqb sb (rq_bucket r) && String.eqb so ("/" ++ rq_object r) then None   (* ErrInvalidCopyDest *)
+    else Some sb
+  else if (i =? COPY_OBJECT_PART_IDX)%N then
+    if String.eqb so "" || String.eqb sb "" then None                                   (* ErrInvalidCopySource *)
+    else if negb (e_upload_exists e) then None                                          (* ErrNoSuchUpload *)
+    else if ((part_number r <? 1) || (globalMaxPartID <? part_number r))%N then None    (* ErrInvalidMaxParts *)
+    else Some sb
+  else None.
+
+(* "allow that operation on that bucket", the read half of a copy: the signer (or the anonymous
+   identity) may Read the bucket the data is taken from *)
+Definition source_read_spec (ids : list identity) (r : request) (c : claim) (e : env) (i : N) : bool :=
+  match copy_reads_source r e i with
+  | Some sb => authorized_spec ids (get_request_auth_type r) c ACTION_READ sb
+  | None => true
+  end.
+
+(* the property's right-hand side for route i: the route's action on the URL's bucket AND, for a
+   copy, Read on the source bucket *)
+Definition effect_authorized_spec (ids : list identity) (r : request) (c : claim) (e : env) (i : N) : bool :=
+  effect_authorized_spec0 ids r c e i && source_read_spec ids r c e i.
+
 (* ---------- narrowed trigger sets ----------
    finding 0: a bypass-type request on a route whose handler verifies nothing itself
               (every route but PutObject / PostPolicy; PutObjectPart: its filer lookup runs
               before the seed verification, so it stays inside unless the seed is valid)
-   finding 1: a POST policy upload validly signed by an identity that may NOT Write the bucket *)
+   finding 1: a POST policy upload validly signed by an identity that may NOT Write the bucket
+   finding 3: see trigger3 below *)
 Definition trigger0 (ids : list identity) (r : request) (c : claim) (i : N) : bool :=
   bypass_type (get_request_auth_type r) &&
   negb ((i =? PUT_OBJECT_IDX)%N || (i =? POST_POLICY_IDX)%N) &&
@@ -736,5 +831,15 @@ Definition trigger1 (ids : list identity) (r : request) (e : env) (i : N) : bool
   (i =? POST_POLICY_IDX)%N &&
   match policy_signer ids (e_form e) with
   | Some id => negb (allows (id_actions id) ACTION_WRITE (rq_bucket r))
+  | None => false
+  end.
+
+(* finding 3: a copy by a request that is authorised to Write the destination but whose signer may
+   NOT Read the bucket the source is taken from (the handler downloads it all the same) *)
+Definition trigger3 (ids : list identity) (r : request) (c : claim) (e : env) (i : N) : bool :=
+  let t := get_request_auth_type r in
+  negb (bypass_type t) &&
+  match copy_reads_source r e i with
+  | Some sb => authorized_spec ids t c ACTION_WRITE (rq_bucket r) && negb (authorized_spec ids t c ACTION_READ sb)
   | None => false
   end.
